@@ -24,7 +24,7 @@ RULE = ("Cells (model kind in 4) x (metric in 47) x (on-the-fly | pre-computed m
         "distinct = case hash; cells = kind x metric x mode.")
 ASSUMPTIONS = [
     "a fit that raises is counted 'aborted' and skipped (nothing to save)",
-    "the fresh-interpreter load is sampled (1 in 40 quick, 1 in 12 thorough) because each costs an interpreter start",
+    "the fresh-interpreter load is sampled (1 in 28 quick, 1 in 8 thorough) because each costs an interpreter start",
 ]
 BUDGET = {
     "quick": {"cases": 1200, "seconds": 90, "shards": 8},
@@ -50,7 +50,7 @@ def generate(rng, tier, idx):
     YV[0] = int(Y.max())
     Q = gen.to_domain(gen.make_queries(rng, A, int(rng.integers(1, 7))), dom)
     max_k = int(rng.integers(1, min(4, n - 1) + 1))
-    fresh = (idx % (40 if tier == "quick" else 12)) == 5
+    fresh = (idx % (28 if tier == "quick" else 8)) == 5
     fn_via_property = None
     if rng.random() < 0.12:
         same_dom = [k for k in NAMES if T[k][1] == dom and k != name and k != "statistic"]
@@ -291,6 +291,12 @@ def check(case):
                 d = snapshot_diff(S1, S_saved)
                 if d:
                     res.violate("load", "C19/loaded-forest-differs", f"{kind}/{name}: forest loaded in a fresh interpreter differs: {d}")
+                    return res
+                px, py = np.array([0.3, 0.2, 0.5, 0.7]), np.array([0.1, 0.6, 0.3, 0.9])
+                want = safe_call(m.distance_fn, px, py)
+                if want.ok and doc.get("probe") not in (None, float(want.value).hex()):
+                    res.violate("load", "C19/loaded-metric-differs",
+                                f"{kind}/{name}: in a fresh interpreter the loaded model's distance_fn gives {doc.get('probe')} on the probe pair, the original's gives {float(want.value).hex()}")
                     return res
                 if p_now.ok and doc.get("pred_ok") and doc["pred"] != _plain(p_now.value):
                     res.violate("load", "C19/loaded-predictions-differ", f"{kind}/{name}: fresh interpreter predicts {doc['pred']}, original {_plain(p_now.value)}")
